@@ -1,30 +1,120 @@
-(* C19 driver.  Input (harness/cmd/vh/c19.go):
-     CP ne existing.. no options.. ns strategy.. nm (id metric)..
-   Observation: ( r np parents.. n options.. idx )*  res ok|panic n result..
-   The map-order shuffles and the RandomStrategy answers are ORACLES: they are read from the
-   implementation's observation and fed to the extracted model (a shown list is accepted as the
-   shuffle only if it is a duplicate-free rearrangement of the model's current option set, otherwise
-   the model uses its own order and the logs differ).  Scripted indices and the MetricStrategy are
-   computed by the model itself.
-   spec_ok = wf_result_b (the property's sentence on the final result) && trace_ok (each call saw the
-   parents so far and exactly the remaining options; its answer was appended) && maximal_b for every
-   MetricStrategy call; a panic is accepted only after an out-of-range scripted index. *)
+(* C19 driver.  Inputs (harness/cmd/vh/c19.go):
+     CP|CPN ne existing.. no options.. ns strategy.. nm (id metric)..
+        obs: ( r np parents.. n options.. idx )*  res ok|panic n result..
+     MC n options.. nm (id metric)..                 MetricStrategy.Choose directly; obs: idx
+     MS mode ; T nm (id metric).. ; H n options.. ;… ONE MetricStrategy object reused while the metric
+        function changes between calls (mode p = plain function, mode c = behind a MetricFnCache);
+        obs: one idx per H
+     QI nv w.. diffk self ; E.. ; P.. ; C ne existing.. no options.. ns ; …
+        a real QuorumIndexer over a real vecfc index; C = ChooseParents with ns x qi.SearchStrategy();
+        obs per C:  c ( r np parents.. n options.. idx m1..mn )* res ok n result..   where m_j is
+        qi.GetMetricOf(option j) evaluated AT CHOOSE TIME (an oracle for this property: C20 is about it)
+   The map-order shuffles, RandomStrategy answers and the QuorumIndexer's metric values are ORACLES read
+   from the observation; scripted indices and every MetricStrategy answer are computed by the extracted
+   model (metric_choose).
+   spec_ok = wf_result_b && trace_ok && index in range && maximal_b for every MetricStrategy call (against
+   the metric function current at that call); a panic only after an out-of-range scripted index. *)
 open Model
 open Conv
 open Drv
 
 type kind = KM | KR | KI of int | KX of int
 
+let rec times k f = if k <= 0 then [] else let x = f () in x :: times (k - 1) f
+let toks l = List.map tok_of_n l
+let assoc_metric table (x : n) : n =
+  let k = tok_of_n x in
+  (* the Go map keeps the last value written for a key; ids not listed have metric 0 *)
+  List.fold_left (fun acc (i, m) -> if i = k then m else acc) N0 table
+
+(* one ChooseParents call.  rounds: (parents shown, options shown, idx, echoed metric tokens) *)
+let eval_cp existing options kinds (metric_for : int -> n -> n) rounds status result =
+  let ns = List.length kinds in
+  let nth_round i = try Some (List.nth rounds i) with _ -> None in
+  let strategies = List.mapi (fun i k ->
+    let sh (s : n list) : n list =
+      match nth_round i with
+      | Some (_, l, _, _) when same_set_b l s -> l
+      | _ -> List.sort compare s in
+    match k with
+    | KM -> metric_strategy sh (metric_for i)
+    | KR -> { shuf = sh; choose = (fun _ _ ->
+                match nth_round i with Some (_, _, k, _) when k >= 0 -> nat_of_int k | _ -> O) }
+    | KI k -> { shuf = sh; choose = (fun _ cur -> nat_of_int (k mod (max 1 (List.length cur)))) }
+    | KX k -> { shuf = sh; choose = (fun _ _ -> nat_of_int k) }) kinds in
+  let (mlog, mout) = choose_parents_log existing options strategies in
+  let model_obs =
+    List.concat (List.mapi (fun i ((ps, l), k) ->
+      ["r"; string_of_int (List.length ps)] @ toks ps @ [string_of_int (List.length l)] @ toks l
+      @ [tok_of_nat k]
+      @ (match nth_round i with Some (_, _, _, echo) -> echo | None -> [])) mlog)
+    @ (match mout with
+       | Done r -> ["res"; "ok"; string_of_int (List.length r)] @ toks r
+       | PanicIndex _ -> ["res"; "panic"; "0"]) in
+  let nstrat = nat_of_int ns in
+  let spec_of status result rounds3 =
+    let nth3 i = try Some (List.nth rounds3 i) with _ -> None in
+    let metric_ok () =
+      List.for_all (fun (i, k) -> match k, nth3 i with
+        | KM, Some (_, l, idx) -> idx >= 0 && maximal_b (metric_for i) l (nat_of_int idx)
+        | _ -> true) (List.mapi (fun i k -> (i, k)) kinds) in
+    match status with
+    | "ok" ->
+      wf_result_b existing options nstrat result
+      && trace_ok existing options (List.map (fun (ps, l, k) -> ((ps, l), nat_of_int (max k 0))) rounds3) result
+      && List.for_all (fun (_, l, k) -> k >= 0 && k < List.length l) rounds3
+      && metric_ok ()
+    | "panic" ->
+      (match List.rev rounds3 with
+       | (_, l, k) :: _ ->
+         (match List.nth_opt kinds (List.length rounds3 - 1) with
+          | Some (KX _) -> k < 0 || k >= List.length l
+          | _ -> false)
+       | [] -> false)
+    | _ -> false in
+  let r3 = List.map (fun (ps, l, k, _) -> (ps, l, k)) rounds in
+  let m_rounds = List.map (fun ((ps, l), k) -> (ps, l, int_of_nat k)) mlog in
+  (model_obs, spec_of status result r3,
+   (match mout with Done r -> spec_of "ok" r m_rounds | PanicIndex _ -> spec_of "panic" [] m_rounds))
+
+(* parse "( r ... )* res status n ids.." from a token list; returns (rounds, status, result, rest) *)
+let parse_call with_metrics (o : string list ref) =
+  let onext () = match !o with x :: r -> o := r; x | [] -> failwith "short obs" in
+  let rounds = ref [] and status = ref "" and result = ref [] and fin = ref false in
+  (try
+    while not !fin do
+      match onext () with
+      | "r" ->
+        let np = int_of_string (onext ()) in
+        let ps = times np (fun () -> n_of_tok (onext ())) in
+        let n = int_of_string (onext ()) in
+        let l = times n (fun () -> n_of_tok (onext ())) in
+        let k = int_of_string (onext ()) in
+        let echo = if with_metrics then times n onext else [] in
+        rounds := (ps, l, k, echo) :: !rounds
+      | "res" ->
+        status := onext ();
+        let n = int_of_string (onext ()) in
+        result := times n (fun () -> n_of_tok (onext ()));
+        fin := true
+      | _ -> failwith "bad obs"
+    done
+  with Failure _ -> status := "unparsable");
+  (List.rev !rounds, !status, !result)
+
+let reader rest =
+  let q = ref rest in
+  let next () = match !q with x :: r -> q := r; x | [] -> failwith "short input" in
+  let cnt () = int_of_string (next ()) in
+  let ids () = let n = cnt () in times n (fun () -> n_of_tok (next ())) in
+  (next, cnt, ids)
+
 let eval inp obs =
   (* CPN = CP with empty lists / no strategies passed as nil slices (no difference for the model) *)
   let inp = (match inp with "CPN" :: rest -> "CP" :: rest | _ -> inp) in
   match inp with
   | "CP" :: rest ->
-    let q = ref rest in
-    let next () = match !q with x :: r -> q := r; x | [] -> failwith "short input" in
-    let cnt () = int_of_string (next ()) in
-    let rec times k f = if k <= 0 then [] else let x = f () in x :: times (k - 1) f in
-    let ids () = let n = cnt () in times n (fun () -> n_of_tok (next ())) in
+    let (next, cnt, ids) = reader rest in
     let existing = ids () in
     let options = ids () in
     let ns = cnt () in
@@ -36,95 +126,18 @@ let eval inp obs =
                      | _ -> failwith "bad strategy") in
     let nm = cnt () in
     let table = times nm (fun () -> let i = next () in let m = next () in (i, n_of_tok m)) in
-    let metric (x : n) : n =
-      let k = tok_of_n x in
-      (* the Go map keeps the last value written for a key *)
-      List.fold_left (fun acc (i, m) -> if i = k then m else acc) N0 table in
-    (* parse the observation *)
     let o = ref obs in
-    let onext () = match !o with x :: r -> o := r; x | [] -> failwith "short obs" in
-    let rounds = ref [] in
-    let status = ref "" and result = ref [] in
-    (try
-      while !o <> [] do
-        match onext () with
-        | "r" ->
-          let np = int_of_string (onext ()) in
-          let ps = times np (fun () -> n_of_tok (onext ())) in
-          let n = int_of_string (onext ()) in
-          let l = times n (fun () -> n_of_tok (onext ())) in
-          let k = int_of_string (onext ()) in
-          rounds := (ps, l, k) :: !rounds
-        | "res" ->
-          status := onext ();
-          let n = int_of_string (onext ()) in
-          result := times n (fun () -> n_of_tok (onext ()))
-        | _ -> failwith "bad obs"
-      done
-    with Failure _ -> status := "unparsable");
-    let rounds = List.rev !rounds in
-    let nth_round i = try Some (List.nth rounds i) with _ -> None in
-    let strategies = List.mapi (fun i k ->
-      let sh (s : n list) : n list =
-        match nth_round i with
-        | Some (_, l, _) when same_set_b l s -> l
-        | _ -> List.sort compare s in
-      match k with
-      | KM -> metric_strategy sh metric
-      | KR -> { shuf = sh; choose = (fun _ _ ->
-                  match nth_round i with Some (_, _, k) when k >= 0 -> nat_of_int k | _ -> O) }
-      | KI k -> { shuf = sh; choose = (fun _ cur -> nat_of_int (k mod (max 1 (List.length cur)))) }
-      | KX k -> { shuf = sh; choose = (fun _ _ -> nat_of_int k) }) kinds in
-    let (mlog, mout) = choose_parents_log existing options strategies in
-    let toks l = List.map tok_of_n l in
-    let model_obs =
-      List.concat (List.map (fun ((ps, l), k) ->
-        ["r"; string_of_int (List.length ps)] @ toks ps @ [string_of_int (List.length l)] @ toks l
-        @ [tok_of_nat k]) mlog)
-      @ (match mout with
-         | Done r -> ["res"; "ok"; string_of_int (List.length r)] @ toks r
-         | PanicIndex _ -> ["res"; "panic"; "0"]) in
-    let nstrat = nat_of_int ns in
-    let metric_ok () =
-      List.for_all (fun (i, k) -> match k, nth_round i with
-        | KM, Some (_, l, idx) -> idx >= 0 && maximal_b metric l (nat_of_int idx)
-        | _ -> true) (List.mapi (fun i k -> (i, k)) kinds) in
-    let spec_of status result rounds =
-      match status with
-      | "ok" ->
-        wf_result_b existing options nstrat result
-        && trace_ok existing options (List.map (fun (ps, l, k) -> ((ps, l), nat_of_int (max k 0))) rounds) result
-        && List.for_all (fun (_, l, k) -> k >= 0 && k < List.length l) rounds
-        && metric_ok ()
-      | "panic" ->
-        (* legitimate only if the last recorded call answered an out-of-range scripted index *)
-        (match List.rev rounds with
-         | (_, l, k) :: _ ->
-           (match List.nth_opt kinds (List.length rounds - 1) with
-            | Some (KX _) -> k < 0 || k >= List.length l
-            | _ -> false)
-         | [] -> false)
-      | _ -> false in
-    let m_rounds = List.map (fun ((ps, l), k) -> (ps, l, int_of_nat k)) mlog in
-    { default_verdict with model_obs;
-      spec_ok = Some (spec_of !status !result rounds);
-      model_spec_ok = (match mout with
-                       | Done r -> spec_of "ok" r m_rounds
-                       | PanicIndex _ -> spec_of "panic" [] m_rounds);
-      nontrivial = (rounds <> []) }
+    let (rounds, status, result) = parse_call false o in
+    let status = if !o <> [] then "unparsable" else status in
+    let (model_obs, sp, msp) = eval_cp existing options kinds (fun _ -> assoc_metric table) rounds status result in
+    { default_verdict with model_obs; spec_ok = Some sp; model_spec_ok = msp; nontrivial = (rounds <> []) }
   | "MC" :: rest ->
     (* MetricStrategy.Choose called directly on an arbitrary list (duplicates, empty) *)
-    let q = ref rest in
-    let next () = match !q with x :: r -> q := r; x | [] -> failwith "short input" in
-    let cnt () = int_of_string (next ()) in
-    let rec times k f = if k <= 0 then [] else let x = f () in x :: times (k - 1) f in
-    let n = cnt () in
-    let opts = times n (fun () -> n_of_tok (next ())) in
+    let (next, cnt, ids) = reader rest in
+    let opts = ids () in
     let nm = cnt () in
     let table = times nm (fun () -> let i = next () in let m = next () in (i, n_of_tok m)) in
-    let metric (x : n) : n =
-      let k = tok_of_n x in
-      List.fold_left (fun acc (i, m) -> if i = k then m else acc) N0 table in
+    let metric = assoc_metric table in
     let k = metric_choose metric opts in
     let spec_ok = (match obs with
       | [i] -> (match int_of_string_opt i with
@@ -136,6 +149,91 @@ let eval inp obs =
     { default_verdict with model_obs = [tok_of_nat k]; spec_ok;
       model_spec_ok = (opts = [] || maximal_b metric opts k);
       nontrivial = (opts <> []) }
+  | "MS" :: mode :: rest ->
+    (* ONE MetricStrategy object, the metric function changes between calls.
+       mode p: MetricStrategy over the plain function: every call must use the CURRENT table.
+       mode c: over a MetricFnCache (size 128, fewer ids than that): the cache's contract is "first value
+               seen"; the strategy must be maximal w.r.t. the values the cache hands out, which the driver
+               tracks as an oracle table (first table value at the time an id was first asked for). *)
+    let steps = List.filter (fun l -> l <> []) (split_on ";" rest) in
+    let table = ref [] and seen = ref [] in
+    let outs = ref [] and ok_impl = ref true and ok_model = ref true and o = ref obs in
+    List.iter (fun st -> match st with
+      | "T" :: r ->
+        let (next, cnt, _) = reader r in
+        let nm = cnt () in
+        table := times nm (fun () -> let i = next () in let m = next () in (i, n_of_tok m))
+      | "H" :: r ->
+        let (_, _, ids) = reader r in
+        let opts = ids () in
+        let cur = assoc_metric !table in
+        let metric =
+          if mode = "c" then begin
+            (* ids are asked for in list order; remember the first value handed out *)
+            List.iter (fun x -> let k = tok_of_n x in
+              if not (List.mem_assoc k !seen) then seen := (k, cur x) :: !seen) opts;
+            (fun x -> List.assoc (tok_of_n x) !seen)
+          end else cur in
+        let k = metric_choose metric opts in
+        outs := tok_of_nat k :: !outs;
+        if opts <> [] && not (maximal_b metric opts k) then ok_model := false;
+        (match !o with
+         | i :: tl -> o := tl;
+           (match int_of_string_opt i with
+            | Some i when i >= 0 -> if opts <> [] && not (maximal_b metric opts (nat_of_int i)) then ok_impl := false
+            | _ -> ok_impl := false)
+         | [] -> ok_impl := false)
+      | _ -> failwith "bad MS step") steps;
+    { default_verdict with model_obs = List.rev !outs; spec_ok = Some (!ok_impl && !o = []);
+      model_spec_ok = !ok_model; nontrivial = true }
+  | "QI" :: rest ->
+    let steps = List.filter (fun l -> l <> []) (split_on ";" rest) in
+    (* the script must be a well-formed DAG history (a shrunk variant may not be): every referenced
+       event defined earlier, seq = previous own seq + 1, self-parent first *)
+    let defined = Hashtbl.create 16 and last = Hashtbl.create 8 in
+    let need id = if not (Hashtbl.mem defined id) then failwith "ill-formed QI script" in
+    List.iter (fun st -> match st with
+      | "E" :: id :: cr :: sq :: _ :: np :: ps ->
+        List.iter need ps;
+        if List.length ps <> int_of_string np then failwith "ill-formed QI script";
+        (match Hashtbl.find_opt last cr with
+         | Some (pid, psq) ->
+           if int_of_string sq <> psq + 1 || (match ps with p :: _ -> p <> pid | [] -> true)
+           then failwith "ill-formed QI script"
+         | None -> if int_of_string sq <> 1 then failwith "ill-formed QI script");
+        Hashtbl.replace defined id (); Hashtbl.replace last cr (id, int_of_string sq)
+      | "P" :: id :: _ -> need id
+      | "C" :: r ->
+        let (_, _, ids) = reader r in
+        let ex = ids () in
+        let op = ids () in
+        List.iter (fun x -> need (tok_of_n x)) (ex @ op)
+      | _ -> ()) (match steps with _hdr :: tl -> tl | [] -> []);
+    let o = ref obs in
+    let model_obs = ref [] and ok_impl = ref true and ok_model = ref true and calls = ref 0 in
+    List.iter (fun st -> match st with
+      | "C" :: r ->
+        let (_, cnt, ids) = reader r in
+        let existing = ids () in
+        let options = ids () in
+        let ns = cnt () in
+        incr calls;
+        (match !o with
+         | "c" :: tl ->
+           o := tl;
+           let (rounds, status, result) = parse_call true o in
+           let metric_for i = (match List.nth_opt rounds i with
+             | Some (_, l, _, echo) ->
+               assoc_metric (List.map2 (fun x m -> (tok_of_n x, n_of_tok m)) l echo)
+             | None -> (fun _ -> N0)) in
+           let (mo, sp, msp) = eval_cp existing options (times ns (fun () -> KM)) metric_for rounds status result in
+           model_obs := !model_obs @ ("c" :: mo);
+           if not sp then ok_impl := false;
+           if not msp then ok_model := false
+         | _ -> ok_impl := false)
+      | _ -> ()) steps;
+    { default_verdict with model_obs = !model_obs; spec_ok = Some (!ok_impl && !o = []);
+      model_spec_ok = !ok_model; nontrivial = (!calls > 0) }
   | _ -> failwith "bad case"
 
 let () = run eval
